@@ -128,7 +128,6 @@ ReportedHead(n) == LET k == IF SyncedHead THEN Len(wal[n]) ELSE synced[n] IN
 
 HandleNewTerm(n, t) ==
     /\ up[n] /\ [n |-> n, t |-> t] \in ntq /\ ~Busy(n)
-    /\ (SyncedHead => NoParkedSync(n))          \* the repaired handler waits for the sync round
     /\ ntq' = ntq \ {[n |-> n, t |-> t]}
     /\ LET oc == NewTermOutcome(n, t) IN
        IF oc = "ok"
@@ -142,7 +141,9 @@ HandleNewTerm(n, t) ==
             \* leader: tracker and cursors are closed (pending writes fail); follower: stream closed
             /\ lead' = [lead EXCEPT ![n] = NULL]
             /\ LET s1 == IF ctrl[n] = "follower" THEN DropStreamsTo(n, streams) ELSE DropStreamsFrom(n, streams)
-                   f1 == [fol EXCEPT ![n] = IF @ # NULL THEN [@ EXCEPT !.stream = 0] ELSE @]
+                   \* repaired handler: it syncs the WAL itself; a pending sync round completes with it, but the
+                   \* stream is closed already: nothing is acknowledged and no apply round is signalled
+                   f1 == [fol EXCEPT ![n] = IF @ # NULL THEN [@ EXCEPT !.stream = 0, !.parked = IF SyncedHead THEN {} ELSE @] ELSE @]
                IN /\ streams' = s1 /\ fol' = FolAfterDrop(f1, s1)
             /\ fence' = [fence EXCEPT ![n] = [t |-> t, head |-> ReportedHead(n)]]
             /\ kf' = IF Len(wal[n]) > synced[n] /\ ~SyncedHead THEN kf \cup {"headLag"} ELSE kf
@@ -217,7 +218,7 @@ AttachAll(n, t, todo, x) ==
                                      !.status = [@ EXCEPT ![f] = "FOLLOWER"],
                                      !.term = [@ EXCEPT ![f] = t],
                                      !.ctrl = [@ EXCEPT ![f] = "follower"],
-                                     !.fol = [@ EXCEPT ![f] = [lastApp |-> a, adv |-> 0, stream |-> 0, parked |-> {}]],
+                                     !.fol = [@ EXCEPT ![f] = [lastApp |-> a, adv |-> 0, stream |-> 0, parked |-> {}, sig |-> FALSE]],
                                      !.lead = [@ EXCEPT ![f] = NULL],
                                      !.truncated = @ \cup {f},
                                      !.below = @ \/ a < Len(applied[f])])
@@ -335,7 +336,7 @@ WalSync(n) ==
              IN /\ streams' = IF canAck THEN LET l == CHOOSE x \in ls : TRUE IN
                                              [streams EXCEPT ![<<l, n>>] = [@ EXCEPT !.ack = @ \o newAcks]]
                               ELSE streams
-                /\ fol' = [fol EXCEPT ![n] = [@ EXCEPT !.parked = {}]]
+                /\ fol' = [fol EXCEPT ![n] = [@ EXCEPT !.parked = {}, !.sig = IF canAck THEN FALSE ELSE @]]
                 \* the apply round is signalled by the sync goroutine of the live stream only: a goroutine whose
                 \* stream was closed meanwhile leaves without acknowledging and without signalling
                 /\ applied' = [applied EXCEPT ![n] = IF canAck /\ upto > Len(@) THEN Prefix(wal[n], upto) ELSE @]
@@ -366,11 +367,12 @@ CursorConnect(l, f) ==
     /\ up[l] /\ up[f] /\ l # f
     /\ lead[l] # NULL /\ lead[l].cur[f] # NULL /\ streams[<<l, f>>] = NULL
     /\ ~SnapshotNeeded(l, f)
-    /\ ~Busy(f) /\ NoParkedSync(f)
+    /\ ~Busy(f)
     /\ sid < MaxStreams
+    /\ (FollowerFor(f, term[l]).swap => NoParkedSync(f))
     /\ LET g == FollowerFor(f, term[l])
            st == IF g.swap THEN DiskStatus(f) ELSE status[f]
-           fo == IF g.swap THEN [lastApp |-> Len(wal[f]), adv |-> 0, stream |-> 0, parked |-> {}] ELSE fol[f]
+           fo == IF g.swap THEN [lastApp |-> Len(wal[f]), adv |-> 0, stream |-> 0, parked |-> {}, sig |-> FALSE] ELSE fol[f]
            accept == g.ok /\ st \in {"FENCED", "FOLLOWER"} /\ fo.stream = 0
            c == lead[l].cur[f]
            ld0 == [lead[l] EXCEPT !.cur = [@ EXCEPT ![f] = [@ EXCEPT !.pushed = c.ack, !.sid = sid + 1]]]
@@ -386,7 +388,10 @@ CursorConnect(l, f) ==
              THEN /\ sid' = sid + 1
                   /\ streams' = r.strm
                   /\ lead' = [(IF g.swap THEN [lead EXCEPT ![f] = NULL] ELSE lead) EXCEPT ![l] = r.ld]
-                  /\ fol' = [fol EXCEPT ![f] = [fo EXCEPT !.stream = sid + 1]]
+                  \* the sync goroutine of the new stream takes over a pending signal left by the old stream
+                  /\ fol' = [fol EXCEPT ![f] = [fo EXCEPT !.stream = sid + 1, !.sig = FALSE,
+                                                         !.parked = IF fo.sig /\ synced[f] < Len(wal[f]) /\ ~g.swap
+                                                                    THEN @ \cup {sid + 1} ELSE @]]
              ELSE /\ g.swap            \* otherwise nothing changes: not a step
                   /\ sid' = sid
                   /\ LET s1 == DropStreamsOf({f}, streams) IN
@@ -403,7 +408,7 @@ CursorSnapshot(l, f) ==
     /\ ~Busy(f) /\ NoParkedSync(f)
     /\ LET g == FollowerFor(f, term[l])
            tm == IF g.swap THEN DiskTerm(f) ELSE term[f]
-           fo == IF g.swap THEN [lastApp |-> Len(wal[f]), adv |-> 0, stream |-> 0, parked |-> {}] ELSE fol[f]
+           fo == IF g.swap THEN [lastApp |-> Len(wal[f]), adv |-> 0, stream |-> 0, parked |-> {}, sig |-> FALSE] ELSE fol[f]
            k == Len(applied[l])
        IN /\ g.ok /\ fo.stream = 0
           /\ (tm = 0 \/ tm = term[l])                     \* else InvalidTerm on the first chunk
@@ -433,27 +438,33 @@ DeliverAppend(l, f) ==
        IN IF TermCheckOnAppend /\ m.t # term[f]
           THEN \* ErrInvalidTerm: the stream is closed
                /\ streams' = closed /\ fol' = [fol EXCEPT ![f] = [@ EXCEPT !.stream = 0]]
-               /\ UNCHANGED <<status, wal, fence, kf>>
+               /\ UNCHANGED <<status, wal, fence, kf, synced>>
           ELSE IF m.o <= fol[f].lastApp
-          THEN \* duplicate: acknowledged at once, without comparing
-               \* faithful (DupAckSynced = FALSE): even when the first copy is not synced yet
-               /\ streams' = [streams EXCEPT ![<<l, f>>] =
-                                 IF DupAckSynced /\ m.o > synced[f] THEN rest ELSE [rest EXCEPT !.ack = Append(@, m.o)]]
+          THEN \* duplicate: acknowledged without comparing
+               \* faithful (DupAckSynced = FALSE): at once, even when the first copy is not synced yet
+               \* repaired (DupAckSynced = TRUE): the handler syncs the WAL first; a pending sync round (of a
+               \* closed stream: nothing acknowledged, no apply round) completes with it
+               /\ streams' = [streams EXCEPT ![<<l, f>>] = [rest EXCEPT !.ack = Append(@, m.o)]]
                /\ status' = [status EXCEPT ![f] = "FOLLOWER"]
                /\ kf' = IF ~DupAckSynced /\ m.o > synced[f] THEN kf \cup {"dupAck"} ELSE kf
-               /\ UNCHANGED <<wal, fol, fence>>
+               /\ synced' = [synced EXCEPT ![f] = IF DupAckSynced /\ m.o > @ THEN Len(wal[f]) ELSE @]
+               /\ fol' = [fol EXCEPT ![f] = IF DupAckSynced /\ m.o > synced[f] THEN [@ EXCEPT !.parked = {}] ELSE @]
+               /\ UNCHANGED <<wal, fence>>
           ELSE IF m.o # Len(wal[f]) + 1
           THEN \* wal.AppendAsync refuses a gap: the stream is closed
                /\ streams' = closed /\ fol' = [fol EXCEPT ![f] = [@ EXCEPT !.stream = 0]]
                /\ status' = [status EXCEPT ![f] = "FOLLOWER"]
-               /\ UNCHANGED <<wal, fence, kf>>
+               /\ UNCHANGED <<wal, fence, kf, synced>>
           ELSE /\ wal' = [wal EXCEPT ![f] = Append(@, m.e)]
-               /\ fol' = [fol EXCEPT ![f] = [@ EXCEPT !.lastApp = m.o, !.adv = m.c, !.parked = @ \cup {s.id}]]
+               \* syncCond.Signal(): an idle sync goroutine of this stream starts (or joins) a sync round; if it
+               \* is inside a round already the signal stays pending (the condition's channel holds one signal)
+               /\ fol' = [fol EXCEPT ![f] = [@ EXCEPT !.lastApp = m.o, !.adv = m.c, !.parked = @ \cup {s.id},
+                                                      !.sig = @ \/ s.id \in fol[f].parked]]
                /\ status' = [status EXCEPT ![f] = "FOLLOWER"]
                /\ streams' = [streams EXCEPT ![<<l, f>>] = rest]
                /\ fence' = [fence EXCEPT ![f] = NULL]
-               /\ UNCHANGED kf
-    /\ UNCHANGED <<up, ctrl, term, phantom, synced, applied, dur, lead, sid, coVars, acked, nwrites, hcommit, leaders, budget>>
+               /\ UNCHANGED <<kf, synced>>
+    /\ UNCHANGED <<up, ctrl, term, phantom, applied, dur, lead, sid, coVars, acked, nwrites, hcommit, leaders, budget>>
 
 \* the leader's cursor receives the next Ack (follower_cursor.go:receiveAcks, quorum_ack_tracker.go:ack)
 DeliverAck(f, l) ==
